@@ -438,6 +438,13 @@ def graph_exc(t: Any, dz: Any) -> Any:
     return z3.If(Or(GTerm.is_Other(t), GTerm.is_QTriple(t)), 1, z3.If(And(GTerm.is_Lit(t), needs_dt(t), dz), 2, 0))
 
 
+def graph_exc_of(E: Any, t: Any, dz: Any) -> Any:
+    """graph-name rejection by integration: rdflib's encoder takes the default-graph id, URIRefs and BNodes only"""
+    if E.cls.name == "RDFLibTermEncoder":
+        return z3.If(Or(GTerm.is_IRI(t), GTerm.is_BNode(t)), 0, 1)
+    return graph_exc(t, dz)
+
+
 def graph_occ_n(t: Any) -> Any:
     return z3.If(GTerm.is_IRI(t), 1, 0)
 
@@ -795,7 +802,7 @@ class _encode_quad:
         rep = e.repeated_terms.items
         dz = e.term_encoder.datatypes.lookup.max_size == 0
         x = first_exc(rep[:3], ts[:3], dz)
-        gx = z3.If(rep_equal(rep[3], ts[3]), 0, graph_exc(ts[3], dz))
+        gx = z3.If(rep_equal(rep[3], ts[3]), 0, graph_exc_of(e.term_encoder, ts[3], dz))
         x = z3.If(x != 0, x, gx)
         return {"NotImplementedError": x == 1, "JellyConformanceError": x == 2}
 
@@ -864,11 +871,12 @@ if _os.environ.get("PYVC_WIP") != "1":
         for triples (encode_spo / encode_triple); for quads it is left to the bounded nets - the full contract above is
         work in progress because its queries are slow and unstable."""
         params = _encode_quad.params
+        variants = [{}, {"term_encoder": OBJ(RENC)}]
         result = ROWS
         modifies = _encode_quad.modifies
         tags = {"graph-elided-iff-repeated": ["C19", "C03", "C01"]}
 
-        def requires(e): return wf_te(e.term_encoder)
+        def requires(e): return And(wf_te(e.term_encoder), encoder_universe(e.term_encoder, list(e.terms.items)))
 
         def ghost_enter(e): _reset_marks(e.term_encoder)
 
